@@ -1,6 +1,7 @@
 """C13 — Burg models are stable, nested and minimise forward+backward error."""
 import numpy as np
 import vlib
+from props._loopir import loopir_tie, TRUSTED_LINE
 from vlib import cz, czl, tolq
 
 LEVEL_TEXT = ("Coq theorems (abstract field with conjugation, any length and order) about the model of arburg: AR vector = step-up "
@@ -18,6 +19,8 @@ TRUSTED = ["Coq 8.16.1 kernel + vm_compute", "hand-written model coq/Model/Burg.
            "arburg_stable_complex / arburg_stable_C only: the three standard-library axioms of the real numbers (sig_forall_dec, sig_not_dec, "
            "functional_extensionality_dep) via Coquelicot's C; every other theorem is axiom-free",
            "Python harness"]
+TRUSTED = TRUSTED + [TRUSTED_LINE]
+LEVEL_TEXT = LEVEL_TEXT + (" Additionally the hand-written model is tied to the source text: a deep-embedded loop-IR program is regenerated from the Python source of arburg (criteria=None, and a Criteria object read as the abstract stop rule) on every run (fail-closed ast translator) and evaluated by the Coq interpreter at the exact instance against the model with zero tolerance (same outcome, every entry equal).")
 UNPROVED = ["nothing of the statement in exact arithmetic; rounding of the binary64 code is outside the theorems (correspondence within "
             "1e-9*kappa and search, incl. numpy.roots of the returned polynomial)"]
 ASSUMPTIONS = ["exact arithmetic", "non-degenerate stages (denominator non-zero) as in the property statement"]
@@ -167,6 +170,7 @@ def run(ctx):
     from spectrum.burg import _arburg2
     rng = ctx.rng
     ctx.check_theorems('Properties/C13.v')
+    loopir_tie(ctx, ['arburg'])      # IR programs regenerated from the source vs the model: exact, zero tolerance
 
     cases = []; meta = []
     n = ctx.q(110, 700)
